@@ -182,7 +182,7 @@ func TestC13LinkStream(t *testing.T) {
 		vn := vnet.New()
 		a, _ := vn.AddNode("A", pool[c.Pick("idA", 20)], vnet.NodeOpts{})
 		alerts := mgr.NewAlertMgr(a.Peer.Manager())
-		phase := c.Weighted("phase", 3, 3, 4, 3)
+		phase := c.Weighted("phase", 3, 3, 4, 4)
 		garbage := func(label string) []byte {
 			switch c.Pick(label+".kind", 4) {
 			case 0:
@@ -258,7 +258,7 @@ func TestC13LinkStream(t *testing.T) {
 			alertsB := mgr.NewAlertMgr(b.Peer.Manager())
 			w := &c16World{c: c, nodes: []*vnet.Node{a, b}}
 			var cs []*c16Conn
-			for i, k := 0, c.Int("setups", 2, 4); i < k; i++ {
+			for i, k := 0, 2+c.Weighted("setups", 2, 4, 2); i < k; i++ {
 				x, y := 0, 1
 				if c.Bool("reverse") {
 					x, y = 1, 0
@@ -272,7 +272,7 @@ func TestC13LinkStream(t *testing.T) {
 			if c.Bool("cut") {
 				failAt = c.Int("cut.at", 0, 5)
 			}
-			w.drive(cs, c.Chance("lockstep", 1, 3), failAt) // a panicking setup fails the case there
+			w.drive(cs, c.Chance("lockstep", 1, 2), failAt) // a panicking setup fails the case there
 			for _, cc := range w.conns {
 				cc.conn.Teardown()
 			}
